@@ -55,6 +55,14 @@ def main():
                             "-o", exe, "-lpthread", "-lm"], timeout=300)
         shim_ok = rc == 0
         if not shim_ok:
+            # the scheduler one level lower, under the pthread functions the tree's own configuration calls
+            try:
+                exe = explore.build_pthread_level(wd, "mgp", os.path.join(BINDC, "memgrow_driver.c"), [os.path.join(REPO, "futex", f_) for f_ in ("futex.c", "map.c", "list.c")])
+                shim_ok = True
+                stats["exploration_seam"] = "pthread functions"
+            except common.MachineryError as e_:
+                stats["pthread_level_skipped"] = str(e_)[-300:]
+        if not shim_ok:
             # the tree uses thread primitives the deterministic layer does not provide (it knows the macros of the pinned runtime):
             # no exploration; the real-thread observers below still run
             stats["exploration_skipped"] = err[-300:]
